@@ -273,7 +273,8 @@ class CallMixin(object):
             self.trust('C casts between GIrNode structs follow the node type tag (assumed)')
             if isinstance(v, V):
                 self.assume(st, spec.assumption(v.t))
-                return V(v.t, spec.with_opt(v.hint.opt if v.hint is not None and v.hint.kind == 'obj' else True))
+                opt = v.hint.opt if v.hint is not None and v.hint.kind == 'obj' else (v.hint is not None)
+                return V(v.t, spec.with_opt(opt))
             return v
         if name == '__align_mask':
             x, a = args
@@ -282,6 +283,14 @@ class CallMixin(object):
             self.oblige(st, 'align.power_of_two@%d' % line, pow2, 'GI_ALIGN: the alignment is a power of two (<= 64)')
             self.oblige(st, 'align.nonnegative@%d' % line, xi >= 0, 'GI_ALIGN: the rounded value is not negative')
             return V(mkI(xi - (xi % ai)), parse_spec('int'))
+        if name == '__elemref':
+            uf = self.get_uf('c_elemref', Val, IntS, Val)
+            base, off = args
+            t = uf(base.t, Val.i(off.t))
+            self.trust('&buffer[offset] is an abstract location: a function of (buffer, offset)')
+            self.assume(st, Val.is_R(t))
+            self.known_ref(st, t)
+            return V(t, None)
         if name == '__cdiv':
             a, b = args
             ai, bi = Val.i(a.t), Val.i(b.t)
